@@ -1,12 +1,15 @@
 //! Engine C ("fsmodel"): reference models + drivers for turmoil-fs and
 //! turmoil-io-uring. Serves C07, C10, C18.
+mod c07;
 mod c10;
 mod diff;
+mod durable;
 mod directed;
 mod gen;
 mod model;
 mod ops;
 mod real;
+mod san;
 mod simdrv;
 mod zones;
 
@@ -15,6 +18,7 @@ fn main() {
     let ctx = vcore::Ctx::from_args(&args[1..]);
     vcore::install_quiet_panic_hook();
     match ctx.prop.as_str() {
+        "C07" => c07::run(&ctx),
         "C10" => c10::run(&ctx),
         other => {
             println!("INCONCLUSIVE property={other} not served by fsmodel");
